@@ -155,6 +155,223 @@ theorem isoOfInstant_inj {s us s' us' : Nat} (hs : s < maxSecs) (hs' : s' < maxS
   have hdays : s / 86400 = s' / 86400 := ord2ymd_inj (Prod.ext e1 (Prod.ext e2 e3))
   exact ⟨by omega, e7⟩
 
+
+def yearLen (y : Nat) : Nat := 365 + (if isLeap y then 1 else 0)
+
+theorem dby_succ (y : Nat) (hy : 1 ≤ y) : daysBeforeYear (y + 1) = daysBeforeYear y + yearLen y := by
+  obtain ⟨k, rfl⟩ : ∃ k, y = k + 1 := ⟨y - 1, by omega⟩
+  have e4 : (k + 1) / 4 = k / 4 + (if (k + 1) % 4 = 0 then 1 else 0) := by split <;> omega
+  have e100 : (k + 1) / 100 = k / 100 + (if (k + 1) % 100 = 0 then 1 else 0) := by split <;> omega
+  have e400 : (k + 1) / 400 = k / 400 + (if (k + 1) % 400 = 0 then 1 else 0) := by split <;> omega
+  have g1 : k / 100 ≤ k / 4 := by omega
+  unfold daysBeforeYear yearLen isLeap
+  simp only [Nat.add_sub_cancel, e4, e100, e400, decide_eq_true_eq]
+  by_cases h4 : (k + 1) % 4 = 0 <;> by_cases h100 : (k + 1) % 100 = 0 <;> by_cases h400 : (k + 1) % 400 = 0 <;>
+    simp only [h4, h100, h400, if_true, if_false, true_and, false_and, not_true_eq_false, not_false_eq_true, or_true, or_false, ne_eq] <;> omega
+
+theorem dby_mono {y y' : Nat} (hy : 1 ≤ y) (h : y ≤ y') : daysBeforeYear y ≤ daysBeforeYear y' := by
+  induction h with
+  | refl => exact Nat.le_refl _
+  | step h ih => rename_i m; rw [dby_succ m (Nat.le_trans hy h)]; omega
+
+theorem monthDay_last : monthDay true 365 = (12, 31) := by decide
+
+/-- every day number is `daysBeforeYear y + doy` for the year `y` and day-of-year `doy` that `_ord2ymd` reports -/
+theorem yd_spec (n : Nat) : ∃ y doy, 1 ≤ y ∧ doy < yearLen y ∧ n = daysBeforeYear y + doy ∧
+    ord2ymd n = (y, (monthDay (isLeap y) doy).1, (monthDay (isLeap y) doy).2) := by
+  obtain ⟨a, b, c, d, r1, h1, h2, h3, h4, h5, hn, hb, hc, hd, hr, hb4, hd4, hc24⟩ := decomp n
+  unfold ord2ymd
+  simp only [h1, h2, h3, h4, h5]
+  split
+  · rename_i h
+    rcases h with h | h
+    · have hy : a * 400 + 1 + b * 100 + c * 4 + d - 1 = a * 400 + 1 + b * 100 + c * 4 + 3 := by omega
+      have hl := isLeap_year a b c 3 hb hc (by omega) (fun h' => by omega)
+      have hc' : c ≠ 24 := by omega
+      have hl' : isLeap (a * 400 + 1 + b * 100 + c * 4 + 3) = true := by rw [hl]; simp [hc']
+      refine ⟨a * 400 + 1 + b * 100 + c * 4 + 3, 365, by omega, by simp [yearLen, hl'], ?_, ?_⟩
+      · rw [dby_year a b c 3 (by omega) hc (by omega)]; omega
+      · rw [hy, hl', monthDay_last]
+    · have hy : a * 400 + 1 + b * 100 + c * 4 + d - 1 = a * 400 + 1 + 3 * 100 + 24 * 4 + 3 := by omega
+      have hl := isLeap_year a 3 24 3 (by omega) (by omega) (by omega) (fun h' => by omega)
+      have hl' : isLeap (a * 400 + 1 + 3 * 100 + 24 * 4 + 3) = true := by rw [hl]; simp
+      refine ⟨a * 400 + 1 + 3 * 100 + 24 * 4 + 3, 365, by omega, by simp [yearLen, hl'], ?_, ?_⟩
+      · rw [dby_year a 3 24 3 (by omega) (by omega) (by omega)]; omega
+      · rw [hy, hl', monthDay_last]
+  · rename_i h
+    have hb3 : b ≤ 3 := by omega
+    have hd3 : d ≤ 3 := by omega
+    have hl := isLeap_year a b c d hb hc hd3 (fun h' => by omega)
+    refine ⟨a * 400 + 1 + b * 100 + c * 4 + d, r1, by omega, by unfold yearLen; omega, ?_, ?_⟩
+    · rw [dby_year a b c d hb3 hc hd3]; omega
+    · rw [hl]
+
+/-! ### order -/
+
+/-- lexicographic "earlier" on (month, day) -/
+def mdLt (p q : Nat × Nat) : Prop := p.1 < q.1 ∨ (p.1 = q.1 ∧ p.2 < q.2)
+
+instance (p q : Nat × Nat) : Decidable (mdLt p q) := by unfold mdLt; exact inferInstance
+
+theorem monthDay_step : ∀ n, n < 365 → ∀ leap : Bool, (n + 1 < 365 ∨ leap = true) →
+    mdLt (monthDay leap n) (monthDay leap (n + 1)) := by decide +kernel
+
+theorem mdLt_trans {p q r : Nat × Nat} (h1 : mdLt p q) (h2 : mdLt q r) : mdLt p r := by
+  unfold mdLt at *; omega
+
+theorem monthDay_mono (leap : Bool) {n n' : Nat} (h : n < n') (hn' : n' < 365 ∨ (leap = true ∧ n' < 366)) :
+    mdLt (monthDay leap n) (monthDay leap n') := by
+  induction n' with
+  | zero => omega
+  | succ k ih =>
+    have hstep : mdLt (monthDay leap k) (monthDay leap (k + 1)) :=
+      monthDay_step k (by omega) leap (by rcases hn' with h' | h'; exact Or.inl h'; exact Or.inr h'.1)
+    by_cases hk : n = k
+    · subst hk; exact hstep
+    · exact mdLt_trans (ih (by omega) (by omega)) hstep
+
+/-- lexicographic "earlier" on (year, month, day) -/
+def ymdLt (p q : Nat × Nat × Nat) : Prop := p.1 < q.1 ∨ (p.1 = q.1 ∧ mdLt p.2 q.2)
+
+/-- the calendar step is strictly monotone -/
+theorem ord2ymd_mono {n n' : Nat} (h : n < n') : ymdLt (ord2ymd n) (ord2ymd n') := by
+  obtain ⟨y, doy, hy, hdoy, hn, he⟩ := yd_spec n
+  obtain ⟨y', doy', hy', hdoy', hn', he'⟩ := yd_spec n'
+  rw [he, he']
+  unfold ymdLt
+  by_cases hlt : y < y'
+  · exact Or.inl hlt
+  · by_cases heq : y = y'
+    · subst heq
+      refine Or.inr ⟨rfl, ?_⟩
+      apply monthDay_mono _ (by omega)
+      unfold yearLen at hdoy'
+      cases hl : isLeap y <;> simp [hl] at hdoy' ⊢ <;> omega
+    · exfalso
+      have h1 : y' + 1 ≤ y := by omega
+      have h2 := dby_mono (y := y' + 1) (by omega) h1
+      rw [dby_succ y' hy'] at h2
+      omega
+
+theorem digit_lt : ∀ a, a < 10 → ∀ b, b < 10 → (digitChar a < digitChar b ↔ a < b) := by decide
+
+theorem lt_append_of_lt {p p' : List Char} (x x' : List Char) (hlen : p.length = p'.length) (h : p < p') :
+    p ++ x < p' ++ x' := by
+  induction p generalizing p' with
+  | nil => cases p' with
+    | nil => exact absurd h (List.lt_irrefl _)
+    | cons b ps' => simp at hlen
+  | cons a ps ih => cases p' with
+    | nil => simp at hlen
+    | cons b ps' =>
+      simp only [List.cons_append, List.cons_lt_cons_iff] at h ⊢
+      rcases h with h | ⟨h1, h2⟩
+      · exact Or.inl h
+      · exact Or.inr ⟨h1, ih (by simpa using hlen) h2⟩
+
+theorem pad2_lt {a b : Nat} (ha : a < 100) (hb : b < 100) (h : a < b) : pad2 a < pad2 b := by
+  simp only [pad2, List.cons_lt_cons_iff]
+  by_cases h1 : a / 10 % 10 < b / 10 % 10
+  · exact Or.inl ((digit_lt _ (by omega) _ (by omega)).mpr h1)
+  · exact Or.inr ⟨congrArg digitChar (by omega), Or.inl ((digit_lt _ (by omega) _ (by omega)).mpr (by omega))⟩
+
+theorem pad4_eq (n : Nat) : pad4 n = pad2 (n / 100) ++ pad2 (n % 100) := by
+  have e1 : n / 100 / 10 % 10 = n / 1000 % 10 := by omega
+  have e2 : n / 100 % 10 = n / 100 % 10 := rfl
+  have e3 : n % 100 / 10 % 10 = n / 10 % 10 := by omega
+  have e4 : n % 100 % 10 = n % 10 := by omega
+  simp [pad4, pad2, e1, e3, e4]
+
+theorem pad4_lt {a b : Nat} (ha : a < 10000) (hb : b < 10000) (h : a < b) : pad4 a < pad4 b := by
+  rw [pad4_eq, pad4_eq]
+  by_cases h1 : a / 100 < b / 100
+  · exact lt_append_of_lt _ _ rfl (pad2_lt (by omega) (by omega) h1)
+  · have : a / 100 = b / 100 := by omega
+    rw [this]; exact List.append_left_lt (pad2_lt (by omega) (by omega) (by omega))
+
+theorem pad6_eq (n : Nat) : pad6 n = pad2 (n / 10000) ++ pad4 (n % 10000) := by
+  have e1 : n / 10000 / 10 % 10 = n / 100000 % 10 := by omega
+  have e3 : n % 10000 / 1000 % 10 = n / 1000 % 10 := by omega
+  have e4 : n % 10000 / 100 % 10 = n / 100 % 10 := by omega
+  have e5 : n % 10000 / 10 % 10 = n / 10 % 10 := by omega
+  have e6 : n % 10000 % 10 = n % 10 := by omega
+  simp [pad6, pad4, pad2, e1, e3, e4, e5, e6]
+
+theorem pad6_lt {a b : Nat} (ha : a < 1000000) (hb : b < 1000000) (h : a < b) : pad6 a < pad6 b := by
+  rw [pad6_eq, pad6_eq]
+  by_cases h1 : a / 10000 < b / 10000
+  · exact lt_append_of_lt _ _ rfl (pad2_lt (by omega) (by omega) h1)
+  · have : a / 10000 = b / 10000 := by omega
+    rw [this]; exact List.append_left_lt (pad4_lt (by omega) (by omega) (by omega))
+
+theorem frac_lt {a b : Nat} (ha : a < 1000000) (hb : b < 1000000) (h : a < b) :
+    fracChars a ++ utcSuffix < fracChars b ++ utcSuffix := by
+  unfold fracChars
+  have hb0 : b ≠ 0 := by omega
+  by_cases ha0 : a = 0
+  · simp only [ha0, hb0, if_true, if_false, List.nil_append, utcSuffix, List.cons_append, List.cons_lt_cons_iff]
+    exact Or.inl (by decide)
+  · simp only [ha0, hb0, if_false, List.cons_append, List.cons_lt_cons_iff]
+    exact Or.inr ⟨trivial, lt_append_of_lt _ _ rfl (pad6_lt ha hb h)⟩
+
+theorem cons_lt {c : Char} {x x' : List Char} (h : x < x') : c :: x < c :: x' :=
+  List.cons_lt_cons_iff.mpr (Or.inr ⟨rfl, h⟩)
+
+/-- field by field: an earlier (y, m, d, hh, mm, ss, µs) tuple prints a lexicographically smaller text -/
+theorem isoChars_lt {y m d hh mm ss us y' m' d' hh' mm' ss' us' : Nat}
+    (hy : y < 10000) (hy' : y' < 10000) (hm : m < 100) (hm' : m' < 100) (hd : d < 100) (hd' : d' < 100)
+    (hhh : hh < 100) (hhh' : hh' < 100) (hmm : mm < 100) (hmm' : mm' < 100) (hss : ss < 100) (hss' : ss' < 100)
+    (hus : us < 1000000) (hus' : us' < 1000000)
+    (h : y < y' ∨ (y = y' ∧ (m < m' ∨ (m = m' ∧ (d < d' ∨ (d = d' ∧ (hh < hh' ∨ (hh = hh' ∧ (mm < mm' ∨ (mm = mm' ∧
+      (ss < ss' ∨ (ss = ss' ∧ us < us')))))))))))) :
+    isoChars y m d hh mm ss us < isoChars y' m' d' hh' mm' ss' us' := by
+  unfold isoChars
+  rcases h with h | ⟨rfl, h⟩
+  · exact lt_append_of_lt _ _ rfl (pad4_lt hy hy' h)
+  apply List.append_left_lt; apply cons_lt
+  rcases h with h | ⟨rfl, h⟩
+  · exact lt_append_of_lt _ _ rfl (pad2_lt hm hm' h)
+  apply List.append_left_lt; apply cons_lt
+  rcases h with h | ⟨rfl, h⟩
+  · exact lt_append_of_lt _ _ rfl (pad2_lt hd hd' h)
+  apply List.append_left_lt; apply cons_lt
+  rcases h with h | ⟨rfl, h⟩
+  · exact lt_append_of_lt _ _ rfl (pad2_lt hhh hhh' h)
+  apply List.append_left_lt; apply cons_lt
+  rcases h with h | ⟨rfl, h⟩
+  · exact lt_append_of_lt _ _ rfl (pad2_lt hmm hmm' h)
+  apply List.append_left_lt; apply cons_lt
+  rcases h with h | ⟨rfl, h⟩
+  · exact lt_append_of_lt _ _ rfl (pad2_lt hss hss' h)
+  apply List.append_left_lt
+  exact frac_lt hus hus' h
+
+/-- an earlier instant prints a lexicographically smaller text -/
+theorem isoOfInstant_lt {s us s' us' : Nat} (hs : s < maxSecs) (hs' : s' < maxSecs) (hus : us < 1000000)
+    (hus' : us' < 1000000) (h : s < s' ∨ (s = s' ∧ us < us')) : isoOfInstant s us < isoOfInstant s' us' := by
+  unfold isoOfInstant
+  unfold maxSecs at hs hs'
+  have hd : s / 86400 < maxDays := by unfold maxDays at *; omega
+  have hd' : s' / 86400 < maxDays := by unfold maxDays at *; omega
+  obtain ⟨by1, bm1, bd1⟩ := ord2ymd_bounds _ hd
+  obtain ⟨by2, bm2, bd2⟩ := ord2ymd_bounds _ hd'
+  apply isoChars_lt by1 by2 bm1 bm2 bd1 bd2 (by omega) (by omega) (by omega) (by omega) (by omega) (by omega) hus hus'
+  rcases h with h | ⟨rfl, h⟩
+  · by_cases hday : s / 86400 < s' / 86400
+    · have := ord2ymd_mono hday
+      unfold ymdLt mdLt at this
+      omega
+    · have hday' : s / 86400 = s' / 86400 := by omega
+      rw [hday']
+      refine Or.inr ⟨rfl, Or.inr ⟨rfl, Or.inr ⟨rfl, ?_⟩⟩⟩
+      omega
+  · exact Or.inr ⟨rfl, Or.inr ⟨rfl, Or.inr ⟨rfl, Or.inr ⟨rfl, Or.inr ⟨rfl, Or.inr ⟨rfl, h⟩⟩⟩⟩⟩⟩
+
+
+/-- "a denotes an earlier instant than b" -/
+def instantLt (a b : Aware) : Prop :=
+  a.wall - a.offset < b.wall - b.offset ∨ (a.wall - a.offset = b.wall - b.offset ∧ a.micros < b.micros)
+
 theorem toUtcIso_of_range (a : Aware) (h : 0 ≤ a.wall - a.offset ∧ a.wall - a.offset < (maxSecs : Int)) :
     toUtcIso a = some (String.ofList (isoOfInstant (a.wall - a.offset).toNat a.micros)) := by
   unfold toUtcIso; exact if_pos h
